@@ -112,6 +112,26 @@ def run(ctx):
         for rs_, n in ((16, 0), (16, 1), (16, 16), (16, 40), (1, 3), (4096, 100), (7, 50)):
             rops.append(f'c18.retain mice {d} {rs_} {hexs(rbytes(rng, n))}')
     ctx.both(rops)
+    # process history: every version-dispatched serializer, all versions interleaved in ONE process, once per starting version
+    # (a value computed once per process and not keyed by the version makes the answer depend on which version came first)
+    signedsub = hexs(rbytes(rng, 37))
+    for first in (0, 1, 2):
+        bv = ['b1', 'b2'] if first % 2 == 0 else ['b2', 'b1']
+        sv = ['b1', 'b2', 'b3'][first:] + ['b1', 'b2', 'b3'][:first]
+        md = ['02', '03'] if first % 2 == 0 else ['03', '02']
+        hops = []
+        for rnd in range(2):
+            for v in bv:
+                hops.append(f'bsig.msg {signedsub} {v}')
+                hops.append(f'bundle.write {bundle(v, b"https://example.com/", None, None, [exch(b"https://example.com/", 200, H[:2], b"body")])}')
+            for v in sv:
+                ev = ex(v, b'https://example.com/', b'GET', [], 200, H[:3], b'sig', b'payload')
+                hops.append(f'sxg.msg {exs(ev)} {"ab" * 32} {hexs(b"https://example.com/v")} 5 10')
+                hops.append(f'sxg.write {exs(ev)}')
+                hops.append(f'sxg.hdr {exs(ev)}')
+            for d in md:
+                hops.append(f'mice.enc {d} 16 {hexs(b"forty bytes of payload, more or less....")}')
+        ctx.both(hops)
     # concurrency under the race detector
     G, R = (64, 20) if thorough else (8, 10)
     e3 = ex('b3', b'https://example.com/', b'GET', [], 200, H[:4], b'sig', b'payload' * 50)
